@@ -43,9 +43,9 @@ MANIFEST = {
         text="Machine-checked on the backend model with an arbitrary assignment of throwing write_log / flush_sink calls: a write fault loses at most that statement on that sink and the sinks after it, a flush fault loses nothing, every other statement is still delivered exactly once and in order, every poll still pops the event it processed and flush flags are still raised. Tied to the code by H2 scripts with recording sinks that throw on chosen calls, compared line by line with the model, and the exactly-once oracle restricted to non-faulted deliveries. (Formatter exceptions: finding F4, repaired; exercised by C04's harness.)",
         note=_COMMON_NOTE, ref="§5 C10, §7 F4"),
     "C16": dict(
-        technique="Lean 4 proof: decision-logic theorems (enqueue iff level >= logger level; written to sink i iff level >= sink level and every filter accepts, independent of other sinks) + level table obligation; differential correspondence with per-sink recording and argument-evaluation counters",
-        text="Machine-checked decision logic: shouldLog / sinkAccepts characterise exactly when a statement is enqueued (and its arguments evaluated) and when each sink receives it, independently of the logger's other sinks, with the statement's own (static or dynamic) level. Tied to the code by the H2 harness using the real LOG_* macros (static levels) and the dynamic-level call with side-effect counters in the arguments, sink level filters and filters, level changes interleaved, against the model, plus an oracle on every recorded sink call.",
-        note=_COMMON_NOTE + " Override pattern formatters per sink are covered by C12.", ref="§5 C16"),
+        technique="Lean 4 proof: decision-logic theorems (enqueue iff level >= logger level; written to sink i iff level >= sink level and every filter accepts, independent of other sinks) + level table obligation; differential correspondence with per-sink recording and argument-evaluation counters; invariant over all schedules and stale relaxed loads of add_filter / set_log_level_filter against apply_all_filters under a release/acquire view semantics (the proved spinlock model inside), tied by structural extraction and an N-thread atomic-shim harness with real lock contention",
+        text="Machine-checked decision logic: shouldLog / sinkAccepts characterise exactly when a statement is enqueued (and its arguments evaluated) and when each sink receives it, independently of the logger's other sinks, with the statement's own (static or dynamic) level. Tied to the code by the H2 harness using the real LOG_* macros (static levels) and the dynamic-level call with side-effect counters in the arguments, sink level filters and filters, level changes interleaved, against the model, plus an oracle on every recorded sink call. Concurrency of Sink::add_filter with the backend's apply_all_filters (relaxed _new_filter flag, spinlock, _local_filters copy): machine-checked for every number of threads, schedule and stale-load choice that the copy is race-free and that every evaluation consults a filter list containing every filter whose add_filter returned happens-before the evaluation and only filters whose add_filter had begun (negative witnesses: try_lock-and-evaluate-anyway leaks, relaxed lock races, and the run showing why the happens-before premise is needed); tied to the code by extraction of the two functions' structure and by running the real Sink compiled against an N-thread atomic shim under thousands of generated schedules (every atomic access a scheduling point) against the model and a DONE/STARTED oracle.",
+        note=_COMMON_NOTE + " Override pattern formatters per sink are covered by C12. Filter concurrency: DONE is defined by happens-before (queue publication / lock), not wall-clock, because _new_filter is relaxed; filters are removed never (the API has no remove_filter).", ref="§5 C16"),
     "C17": dict(
         technique="Lean 4 proof: removal invariant on the backend model (a logger is erased only when every queue and buffer is empty; the removal flag is raised only after the erase; sinks destroyed exactly when unreferenced); differential correspondence incl. remove_logger_blocking, re-creation and sink destruction events",
         text="Machine-checked on the backend model: an invalidated logger is erased only in a state where all queues and transit buffers are empty (so every statement logged through it has been written), the removal flag is raised only after the erase, a sink is destroyed exactly when neither the user nor a live logger references it. Tied to the code by H2 scripts with remove_logger / remove_logger_blocking / create_or_get_logger / dropped user references under ASan, compared with the model (logger counts, sink destructor events, flag waits).",
@@ -227,6 +227,111 @@ def collect(ck, tier, ex):
     return res
 
 
+FILT_TAG = "#!filt"
+
+
+def filt_params_line(ex):
+    f = ex.get("filt", {})
+    return "params xchg=%s unl=%s rbc=%d try=%d" % (f.get("xchg", "seq_cst"), f.get("unl", "seq_cst"),
+                                                    1 if f.get("resetBeforeCopy") else 0, 1 if f.get("tryLock") else 0)
+
+
+def filt_trace_block(out, tid):
+    """the lines of trace `tid` in a harness output: (description lines for a replay, all lines for the reader)"""
+    desc, allv, on = [], [], False
+    for l in out.split("\n"):
+        if l.startswith("init "):
+            on = l.split()[1] == tid
+        if on:
+            allv.append(l)
+            if l.startswith(("init ", "prog ", "sched ")):
+                desc.append(l)
+            if l.startswith("end "):
+                break
+    return desc, allv
+
+
+def filter_stream(ck, tier, ex, ps):
+    """C16, concurrency part: the real Sink::add_filter / set_log_level_filter / apply_all_filters under the N-thread atomic
+    shim with generated schedules (real lock contention, stale relaxed loads) — property oracle on the real code, every step
+    replayed on the Lean model (`driver filt trace`), run-time memory orders cross-checked against the extraction."""
+    import time
+    t0 = time.time()
+    okf, fbin, flog = vlib.build_harness("h1_filters", ["h1_filters.cpp"], extra_flags=["-fno-access-control"])
+    if not okf:
+        ck.violation("harness_build_filters", flog, "harness h1_filters no longer compiles against the current tree (correspondence of the "
+                     "filter-concurrency model broken): " + flog[-300:], no_input=True)
+        return {"build": "failed"}
+    nproc, ntr, nst = (3, 800, 36) if tier == "quick" else (6, 8000, 48)
+    cmds = [[fbin, "gen", str(ck.seed * 1000 + i), str(ntr), str(nst), "p%d" % i] for i in range(nproc)]
+    with ThreadPoolExecutor(max_workers=nproc) as pool:
+        runs = list(pool.map(lambda c: vlib.sh(c, env=vlib.ASAN_ENV, timeout=1800), cmds))
+    pline = filt_params_line(ex)
+    rcd, dout = vlib.driver(["filt", "trace"], stdin_data=("\n".join([pline] + [o for _, o in runs])).encode(), timeout=1800)
+    mm = [l for l in dout.split("\n") if l.startswith("MISMATCH")]
+    mv = [l for l in dout.split("\n") if l.startswith("MODEL-VIOLATION")]
+    done = [l for l in dout.split("\n") if l.startswith("DONE")]
+    stats, seen, oracle, aborted = {}, {}, [], []
+    for (rc, out), cmd in zip(runs, cmds):
+        for l in out.split("\n"):
+            if l.startswith("ORACLE"):
+                oracle.append((l, out, cmd))
+            elif l.startswith("STATS"):
+                for kv in l.split()[1:]:
+                    k, v = kv.split("=")
+                    stats[k] = stats.get(k, 0) + int(v)
+            elif l.startswith("ORDERS-SEEN"):
+                for kv in l.split()[1:]:
+                    k, v = kv.split("=")
+                    seen[k] = v if seen.get(k, v) == v else "mixed"
+        if rc not in (0, 3):
+            aborted.append((rc, out, cmd))
+    info = {"processes": nproc, "traces_per_process": ntr, "steps": nst, "stats": stats, "orders_seen": seen,
+            "oracle_hits": len(oracle), "aborts": len(aborted), "driver": done[:1], "mismatches": len(mm),
+            "model_violations": len(mv), "params": pline, "wall_s": round(time.time() - t0, 1),
+            "rule": "one trace = programs of 1-3 frontend threads (add_filter / set_log_level_filter / log) and a backend polling "
+                    "them, under one schedule (sticky random walk or priority schedule with 1-3 change points, stale choices for the "
+                    "relaxed loads) + 8 directed windows; non-trivial iff it has an evaluation, an observed busy lock and a re-copy "
+                    "after the first evaluation or a stale load"}
+    if oracle:
+        l, out, cmd = oracle[0]
+        m0 = re.search(r"trace=(\S+)", l)
+        desc, allv = filt_trace_block(out, m0.group(1)) if m0 else ([], [])
+        if not any(x.startswith("sched ") for x in desc):
+            desc = []
+        head = "%s %s\n# %s\n# replay: python3 tools/check.py %s --replay <this file>\n" % (
+            FILT_TAG, "replay" if desc else "gen " + " ".join(cmd[2:]), l, prop_of(ck))
+        body = "\n".join(desc) + "\n# ---- the schedule as executed on the real code (thread, access, observation) ----\n# " + "\n# ".join(allv) + "\n"
+        ck.violation("filters", head + body,
+                     "property fails on the real code under a concurrent schedule (h1_filters, %d oracle hits): %s" % (len(oracle), l[:400]))
+    elif aborted:
+        rc, out, cmd = aborted[0]
+        ck.violation("filters_abort", "%s gen %s\n# harness h1_filters aborted rc=%d (sanitizer / crash / non-termination in the real code)\n# %s\n" % (
+            FILT_TAG, " ".join(cmd[2:]), rc, out[-3000:].replace("\n", "\n# ")),
+            "the real filter code aborted under the atomic-shim scheduler (rc=%d): %s" % (rc, out.strip().split("\n")[-1][:200]))
+    elif mm or rcd not in (0, 1) or not done:
+        l = (mm or ["driver filt trace failed rc=%d: %s" % (rcd, dout[-300:])])[0]
+        m0 = re.search(r"trace=(\S+)", l)
+        desc, allv = [], []
+        for _, out in runs:
+            if m0 and not desc:
+                desc, allv = filt_trace_block(out, m0.group(1))
+        ck.violation("filters_correspondence", "%s replay\n# correspondence stream `filt` disagrees: %s\n%s\n# ---- harness lines ----\n# %s\n" % (
+            FILT_TAG, l, "\n".join(desc), "\n# ".join(allv)),
+            "filter-concurrency model and implementation disagree (%d lines), no property oracle fired: %s" % (len(mm), l[:300]), no_input=True)
+    exf = ex.get("filt", {})
+    want = {"lock.xchg": exf.get("xchg"), "lock.store": exf.get("unl"), "newf.set": exf.get("flagSet"), "newf.reset": exf.get("flagReset"),
+            "newf.load": exf.get("flagLoad"), "lvl.store": exf.get("lvlStore"), "lvl.load": exf.get("lvlLoad")}
+    bad = {k: (v, seen.get(k)) for k, v in want.items() if k in seen and v is not None and seen[k] != v}
+    if bad and not oracle and not aborted:
+        ps["broken"].append("extraction disagrees with the run-time memory orders of the filter code (extracted, observed): %s" % bad)
+    return info
+
+
+def prop_of(ck):
+    return ck.prop
+
+
 def run(prop, tier):
     ck = vlib.Check(prop, tier, level="proof" if THEOREMS[prop] else "exploration")
     ck.assumptions = [
@@ -305,6 +410,10 @@ def run(prop, tier):
             elif seen and ((seen.get("xchg") not in ("-", exs.get("xchg"))) or (seen.get("unlock") not in ("-", exs.get("unl")))):
                 ps["broken"].append("extraction disagrees with the run-time orders of the spinlock: extracted %s, observed %s" % (exs, seen))
 
+    filt = None
+    if prop == "C16":
+        filt = filter_stream(ck, tier, ex, ps)
+
     mine_or = [o for o in res["oracle"] if o["prop"] == prop]
     mine_mm = [m for m in res["mismatches"] if prop in m["props"]]
     if res["aborts"]:
@@ -343,10 +452,36 @@ def run(prop, tier):
         ck.cov["transit_buffer_stream"] = transit
     if spin is not None:
         ck.cov["spinlock_stream"] = spin
+    if filt is not None:
+        ck.cov["filter_stream"] = filt
     return ck.finish()
 
 
+def replay_filt(prop, path, first):
+    okf, fbin, flog = vlib.build_harness("h1_filters", ["h1_filters.cpp"], extra_flags=["-fno-access-control"])
+    if not okf:
+        print(flog)
+        return 2
+    ex = vlib.run_extract()
+    vlib.lake_build(["driver"])
+    w = first.split()
+    cmd = [fbin, "gen"] + w[2:] if len(w) > 2 and w[1] == "gen" else [fbin, "replay", path]
+    rc, out = vlib.sh(cmd, env=vlib.ASAN_ENV, timeout=1800)
+    orc = [l for l in out.split("\n") if l.startswith("ORACLE")]
+    if len(out) < 200000:
+        print(out)
+    else:
+        print("\n".join(orc[:20]))
+        print(out[-3000:])
+    rc2, dout = vlib.driver(["filt", "trace"], stdin_data=(filt_params_line(ex) + "\n" + out).encode())
+    print("\n".join(l for l in dout.split("\n") if not l.startswith("TRACE")) if len(dout) > 20000 else dout)
+    return 1 if rc != 0 or orc else 0
+
+
 def replay(prop, path):
+    first = open(path).readline().strip()
+    if first.startswith(FILT_TAG):
+        return replay_filt(prop, path, first)
     lines = [l.rstrip("\n") for l in open(path) if l.strip() and not l.startswith("#")]
     v = 1 if re.search(r"\.v1\.|variant=1|v1_", path + " ".join(lines[:2])) else 0
     ok, hbin, log = vlib.build_harness("h2_v%d" % v, ["h2_backend.cpp"], extra_flags=["-fno-access-control", "-DH2_VARIANT=%d" % v])
